@@ -76,4 +76,9 @@ theorem bbox_patch_hi_eq (n c s : Int) :
   simp only [bbox_patch_hi, bboxLOff, bboxROff, pyMax, decide_eq_true_eq]
   split <;> split <;> split <;> omega
 
+/-! `PadKspace` / `CropKspace`: the chain of calls applied to the k-space is the modelled plan -/
+theorem pad_kspace_plan_eq : Gen.C10.padKspacePlan = some Crop.padKspacePlan := by decide
+
+theorem crop_kspace_plan_eq : Gen.C10.cropKspacePlan = some Crop.cropKspacePlan := by decide
+
 end DirectVerif.Bridge.C10
